@@ -115,11 +115,12 @@ func c13Body(r *Run) {
 		outs     []*message.Message
 		err      error
 		callsBefore int
+		subName     string
 	}
 	var invs []*inv
 	seen := map[string]int{}
 	handler := func(m *message.Message) ([]*message.Message, error) {
-		iv := &inv{msg: m, metaIn: copyMeta(m.Metadata), callsBefore: len(poison.Calls)}
+		iv := &inv{msg: m, metaIn: copyMeta(m.Metadata), callsBefore: len(poison.Calls), subName: message.SubscriberNameFromCtx(m.Context())}
 		seen[m.UUID]++
 		k := kind
 		if seen[m.UUID] > 4 {
@@ -150,39 +151,55 @@ func c13Body(r *Run) {
 			}
 			return
 		}
-		if len(newCalls) != 1 {
-			r.Fail("C13.R1", "a failed message was not published exactly once to the poison topic", "%s: %d poison publish calls", what, len(newCalls))
+		// "published exactly once": present once in the poison topic — calls that the publisher rejected put nothing there
+		var acceptedCalls []*PubCall
+		for _, c := range newCalls {
+			if c.Err == nil {
+				acceptedCalls = append(acceptedCalls, c)
+			}
+		}
+		if len(newCalls) == 0 || len(acceptedCalls) > 1 {
+			r.Fail("C13.R1", "a failed message was not published exactly once to the poison topic", "%s: %d poison publish calls, %d accepted", what, len(newCalls), len(acceptedCalls))
 			return
 		}
-		c := newCalls[0]
-		if c.Topic != "poison" || len(c.Snap) != 1 {
-			r.Fail("C13.R1", "poison publish on a wrong topic or with a wrong number of messages", "%s: topic %q, %d messages", what, c.Topic, len(c.Snap))
-			return
-		}
-		pm := c.Snap[0]
-		if pm.UUID != iv.msg.UUID || string(pm.Payload) != string(iv.msg.Payload) {
-			r.Fail("C13.R1", "the poison message does not carry the UUID and payload of the failed message", "%s: %s %q", what, pm.UUID, pm.Payload)
-		}
-		want := map[string]string{
-			middleware.ReasonForPoisonedKey:  iv.err.Error(),
-			middleware.PoisonedTopicKey:      wantTopic,
-			middleware.PoisonedHandlerKey:    wantHandler,
-			middleware.PoisonedSubscriberKey: wantSub,
-		}
-		for k, v := range want {
-			if pm.Metadata.Get(k) != v {
-				r.Fail("C13.R1", "poison metadata does not name the reason, topic, handler and subscriber", "%s: %s=%q, expected %q", what, k, pm.Metadata.Get(k), v)
+		for _, c := range newCalls {
+			if c.Topic != "poison" || len(c.Snap) != 1 {
+				r.Fail("C13.R1", "poison publish on a wrong topic or with a wrong number of messages", "%s: topic %q, %d messages", what, c.Topic, len(c.Snap))
+				return
+			}
+			pm := c.Snap[0]
+			if pm.UUID != iv.msg.UUID || string(pm.Payload) != string(iv.msg.Payload) {
+				r.Fail("C13.R1", "the poison message does not carry the UUID and payload of the failed message", "%s: %s %q", what, pm.UUID, pm.Payload)
+			}
+			if got := pm.Metadata.Get(middleware.ReasonForPoisonedKey); !strings.Contains(got, iv.err.Error()) {
+				r.Fail("C13.R1", "poison metadata does not name the reason, topic, handler and subscriber", "%s: %s=%q, expected %q", what, middleware.ReasonForPoisonedKey, got, iv.err.Error())
+			}
+			// topic, handler and subscriber: as the router's context names them; outside a router there is nothing to name
+			// (what then happens to such keys already present on the message is not specified)
+			want := map[string]string{
+				middleware.ReasonForPoisonedKey:  "",
+				middleware.PoisonedTopicKey:      wantTopic,
+				middleware.PoisonedHandlerKey:    wantHandler,
+				middleware.PoisonedSubscriberKey: wantSub,
+			}
+			for k, v := range want {
+				if k == middleware.ReasonForPoisonedKey || v == "" {
+					continue
+				}
+				if pm.Metadata.Get(k) != v {
+					r.Fail("C13.R1", "poison metadata does not name the reason, topic, handler and subscriber", "%s: %s=%q, expected %q", what, k, pm.Metadata.Get(k), v)
+				}
+			}
+			for k, v := range iv.metaIn {
+				if _, special := want[k]; special {
+					continue
+				}
+				if pm.Metadata.Get(k) != v {
+					r.Fail("C13.R1", "the poison message lost original metadata", "%s: %s=%q, original %q", what, k, pm.Metadata.Get(k), v)
+				}
 			}
 		}
-		for k, v := range iv.metaIn {
-			if _, special := want[k]; special {
-				continue
-			}
-			if pm.Metadata.Get(k) != v {
-				r.Fail("C13.R1", "the poison message lost original metadata", "%s: %s=%q, original %q", what, k, pm.Metadata.Get(k), v)
-			}
-		}
-		if c.Err == nil {
+		if len(acceptedCalls) == 1 {
 			if rerr != nil {
 				r.Fail("C13.R1", "the error was not cleared although the poison publish succeeded", "%s: %v", what, rerr)
 			}
@@ -190,7 +207,7 @@ func c13Body(r *Run) {
 			r.Probe("poison-publish-failed")
 			if rerr == nil {
 				r.Fail("C13.R2", "success reported although publishing to the poison topic failed", "%s", what)
-			} else if !strings.Contains(rerr.Error(), iv.err.Error()) {
+			} else if !stderrors.Is(rerr, iv.err) && !strings.Contains(rerr.Error(), iv.err.Error()) {
 				r.Fail("C13.R2", "the handler's error was lost when the poison publish failed", "%s: %v", what, rerr)
 			}
 		}
@@ -272,7 +289,9 @@ func c13Body(r *Run) {
 				r.Fail("C13.R0", "the wrapped handler was not invoked exactly once", "")
 				continue
 			}
-			checkInv(res.iv, res.outs, res.err, "in", "the-handler", subName, res.calls)
+			// (the subscriber is named as the router's context names it: C08 checks that naming)
+			_ = subName
+			checkInv(res.iv, res.outs, res.err, "in", "the-handler", res.iv.subName, res.calls)
 		}
 		if script != nil {
 			// R4: acked => handled successfully or present in the poison topic
